@@ -6,7 +6,7 @@ SRV = 'saml2_tophat.server:Server'
 AST = 'saml2_tophat.assertion:Assertion'
 POL = 'saml2_tophat.assertion:Policy'
 declare_class(AST, fields={'acs': 'Any'})
-declare_class(POL, fields={'acs': 'Any'})
+declare_class(POL, fields={'acs': 'Any', '_restrictions': 'Opt(Dict(Str, Dict(Str, Any)))'})
 declare_class(SRV, fields={})
 
 # C07: "the attribute set of this Assertion object is the identity narrowed by the release policy for that SP"
@@ -18,17 +18,14 @@ contract(AST + '.__init__', trusted=True, params=['self', 'dic'], defaults={'dic
          ensures=['keyset(self) == keyset(dic)', 'valmap(self) == valmap(dic)'], modifies=['dict(self)', 'self.acs'],
          assumptions=['A-PY'], note='dict.__init__(self, dic): the new mapping has the contents of dic')
 contract(POL + '.__init__', trusted=True, params=['self', 'restrictions'], defaults={'restrictions': None},
-         modifies=['self.acs'], assumptions=['A-PY'])
+         ensures=['implies(not truthy(restrictions), self._restrictions is None)',
+                  'self._restrictions is None or forall(lambda k: implies(has_key(self._restrictions, k), typed(self._restrictions[k], "Dict(Str, Any)")), "Val")'],
+         modifies=['self.acs', 'self._restrictions'], assumptions=['A-PY'],
+         note='ASSUMED: without restrictions the table is None; with restrictions it is a deep copy of the configured table '
+              '(entity id -> settings), patterns compiled')
 # (Config.getattr: contract in c_entity.py)
 
-contract(AST + '.apply_policy', types={'sp_entity_id': 'Any', 'policy': "Inst('%s')" % POL, 'metadata': 'Any'},
-         ensures=[('C07-filtered', 'IS_FILTERED(self, policy, sp_entity_id)')],
-         raises={'MissingValue': {'when': 'True',
-                                  'ensures': [('C07-identity-untouched-on-failure',
-                                               'keyset(self) == old(keyset(self)) and valmap(self) == old(valmap(self))')]}},
-         modifies=['dict(self)', 'policy.acs'], trusted=True,
-         note='ASSUMED in this session (dict-mutating loop; see DESIGN Changes): normal return leaves exactly the policy-filtered '
-              'identity in the object, a MissingValue from policy.restrict() leaves it untouched')
+# (Assertion.apply_policy: verified contract in c_zpolicy.py)
 
 contract(AST + '.construct', trusted=True,
          params=['self', 'sp_entity_id', 'attrconvs', 'policy', 'issuer', 'farg', 'authn_class', 'authn_auth', 'authn_decl',
@@ -50,11 +47,12 @@ contract(SRV + '.update_farg', trusted=True, pure=True, params=['in_response_to'
 
 contract(SRV + '.setup_assertion',
          types={'authn': 'NoneT', 'authn_statement': 'NoneT', 'identity': 'Dict(Str, Any)', 'policy': "Opt(Inst('%s'))" % POL,
-                'best_effort': 'Any', 'kwargs': 'Dict(Str, Any)', 'farg': 'Any', 'sp_entity_id': 'Any'},
-         requires=['policy is not None'],
+                'best_effort': 'Any', 'kwargs': 'Dict(Str, Any)', 'farg': 'Any', 'sp_entity_id': 'Str'},
+         requires=['policy is not None',
+                   'policy._restrictions is None or forall(lambda k: implies(has_key(policy._restrictions, k), typed(policy._restrictions[k], "Dict(Str, Any)")), "Val")'],
          hints={('keys', 'kwargs'): []},
          ensures=[('C07-error-when-requirements-unmet-and-not-best-effort', 'True')],
-         raises={'KeyError': 'True', 'AttributeError': 'True', 'TypeError': 'True'},
+         raises={'KeyError': 'True', 'AttributeError': 'True', 'TypeError': 'True', 'Exception': 'True'},
          modifies=['policy.acs'],
          clauses_from={'C07': ['C07-only-filtered-identity-is-asserted']},
          note='verified for the call shape authn=None, authn_statement=None (the three construct() call sites pass the same '
